@@ -62,7 +62,64 @@ func genScenario(r *lib.Rng, cp int, i int) Case {
 		g.send(w2, maxMessage+1) // one byte more: the WRITER is dropped, nobody receives it
 		g.send(w1, 126)
 		g.send(w1, 1<<20)
-	case i%3 == 1:
+	case i%4 == 3:
+		c.Kind = "storm"
+		// writers send back to back and concurrently, without waiting for the relay in between: the
+		// hub order of their messages is not the script's; it is reconstructed from what readers saw
+		var ws []uint64
+		nw := 1
+		if cp > 3 || r.Chance(1, 4) {
+			nw = r.Range(2, 3)
+		}
+		for k := 0; k < nw; k++ {
+			if cp >= 8 && r.Chance(1, 3) {
+				ws = append(ws, g.join(rw, false))
+			} else {
+				ws = append(ws, g.join([]string{"write"}, false))
+			}
+		}
+		g.join([]string{"read"}, false)
+		var slow []uint64
+		for k := r.Range(1, 2); k > 0; k-- {
+			slow = append(slow, g.join([]string{"read"}, true))
+		}
+		for _, wn := range ws {
+			g.send(wn, 125)
+		}
+		var stalled []uint64
+		for _, sn := range slow {
+			if r.Chance(2, 3) {
+				g.ops = append(g.ops, Op{K: "stall", N: sn})
+				stalled = append(stalled, sn)
+			}
+		}
+		g.ops = append(g.ops, Op{K: "storm-begin"})
+		for _, wn := range ws {
+			if r.Bool() {
+				for k := r.Range(3, 8); k > 0; k-- {
+					g.send(wn, 1<<20)
+				}
+			} else {
+				for k := r.Range(20, 60); k > 0; k-- {
+					g.send(wn, []int{65535, 65536}[r.Intn(2)])
+				}
+			}
+			n := r.Range(1, 2*cp+4)
+			if n > 200 {
+				n = 200
+			}
+			for k := 0; k < n; k++ {
+				g.send(wn, smallSizes[r.Intn(len(smallSizes))])
+			}
+		}
+		g.ops = append(g.ops, Op{K: "storm-end"})
+		for _, sn := range stalled {
+			g.ops = append(g.ops, Op{K: "unstall", N: sn})
+		}
+		for k := r.Range(0, 3); k > 0; k-- {
+			g.send(ws[r.Intn(len(ws))], smallSizes[r.Intn(len(smallSizes))])
+		}
+	case i%2 == 1:
 		c.Kind = "calm"
 		var ws []uint64
 		for k := r.Range(2, 3); k > 0; k-- {
